@@ -752,8 +752,9 @@ impl FixtureDatabase {
         // The format is `name-version`. Split on '-' and take the first segment.
         // Package names can contain hyphens, but the version always starts with a digit,
         // so find the first '-' followed by a digit.
-        let name = if let Some(idx) = name_version.char_indices().position(|(i, c)| {
-            c == '-' && name_version[i + 1..].starts_with(|c: char| c.is_ascii_digit())
+        let name = if let Some(idx) = name_version.char_indices().find_map(|(i, c)| {
+            (c == '-' && name_version[i + 1..].starts_with(|c: char| c.is_ascii_digit()))
+                .then_some(i)
         }) {
             &name_version[..idx]
         } else {
